@@ -3,7 +3,14 @@ what happened: exception name, the library's call log, and a description of the 
 usage: pydriver.py <directory holding the extension module> <module name> <plan.json>"""
 import importlib
 import json
+import operator
 import sys
+
+BINOPS = {"+": operator.add, "-": operator.sub, "*": operator.mul, "/": operator.truediv, "%": operator.mod, "^": operator.xor,
+          "&": operator.and_, "|": operator.or_, "+=": operator.iadd, "-=": operator.isub, "*=": operator.imul,
+          "/=": operator.itruediv, "%=": operator.imod, "^=": operator.ixor, "&=": operator.iand, "|=": operator.ior,
+          "<<": operator.lshift, "<<=": operator.ilshift, ">>": operator.rshift, ">>=": operator.irshift, "==": operator.eq,
+          "!=": operator.ne, "<": operator.lt, ">": operator.gt, "<=": operator.le, ">=": operator.ge}
 
 workdir, module, planfile = sys.argv[1:4]
 sys.path.insert(0, workdir)
@@ -58,6 +65,10 @@ for st in plan:
             r = getattr(objs[st["on"]], st["name"])(*pos, **kw)
         elif op in ("static", "func"):
             r = getattr(resolve(st["path"]), st["name"])(*pos, **kw)
+        elif op == "unop":
+            r = {"-": operator.neg, "+": operator.pos}[st["name"]](objs[st["on"]])
+        elif op == "binop":
+            r = BINOPS[st["name"]](objs[st["on"]], pos[0])
         elif op == "getprop":
             r = getattr(objs[st["on"]], st["name"])
         elif op == "setprop":
